@@ -297,6 +297,47 @@ def analyse_function(ctx, repo, rel, func, seed, done, is_setup=False):
                f"after the rename – output would be modified in place",
                node=rn, label=lab + " [nothing-after]")
 
+    # (e) write errors propagate: a handler that swallows exceptions around a
+    # call on a writer / temp-file handle lets the task carry on and rename
+    # an incomplete file
+    writer_vars = set()
+    for n in walk(func):
+        if isinstance(n, (ast.With, ast.AsyncWith)):
+            for it in n.items:
+                if it.optional_vars is not None and any(
+                        c in writes for c in walk(it.context_expr)):
+                    writer_vars |= names_in(it.optional_vars)
+    writer_vars |= {v for v, r in roles.roles.items() if r == {"TEMP"}}
+    for tr in [n for n in walk(func) if isinstance(n, ast.Try)]:
+        wcalls = []
+        for st in tr.body:
+            for c in walk(st):
+                if isinstance(c, ast.Call) and isinstance(
+                        c.func, ast.Attribute) and isinstance(
+                        c.func.value, ast.Name) \
+                        and c.func.value.id in writer_vars:
+                    wcalls.append(c)
+                elif isinstance(c, ast.Call) and c in writes:
+                    wcalls.append(c)
+        if not wcalls:
+            continue
+        for h in tr.handlers:
+            ht = txt(h.type) if h.type is not None else "<bare>"
+            broad = h.type is None or any(
+                k in ht for k in ("Exception", "BaseException", "OSError",
+                                  "IOError", "RuntimeError", "KeyError",
+                                  "ValueError"))
+            reraises = any(isinstance(x, ast.Raise) for x in walk(
+                ast.Module(body=h.body, type_ignores=[])))
+            ok = not broad or reraises
+            ctx.ob("R10.6", ok,
+                   f"handler `except {ht}` around a write re-raises"
+                   if ok else
+                   f"`except {ht}` swallows errors of "
+                   f"`{short(wcalls[0], 50)}`: after a failed write the task "
+                   f"carries on, closes the file and renames an incomplete "
+                   f"result to the output path", node=h,
+                   label=f"write errors propagate {short(wcalls[0], 40)}")
     # (d) from every write sink every normal path reaches a rename
     ren_stmts = {id(_stmt_of(r)) for r in renames}
 
@@ -378,7 +419,11 @@ def run(ctx):
     ctx.rule("R10.3", "setup_task_paths removes stale output/temp files and "
              "derives temp with a '~' suffix", minimum=4)
     ctx.rule("R10.5", "destructive calls on output/temp paths are dominated "
-             "by a disjointness test against the input paths", minimum=2)
+             "by a disjointness test against the input paths; names derived "
+             "from the input name differ from it", minimum=3)
+    ctx.rule("R10.6", "errors of writes propagate: no swallowing handler "
+             "around writer calls, the writer's __exit__ re-raises",
+             minimum=2)
     done = set()
     analysed = set()
     for key, (ins, outs) in TASKS.items():
@@ -414,6 +459,83 @@ def run(ctx):
                    node=f, label="covered-by-analysis")
 
     check_setup(ctx, repo)
+    check_derived_names(ctx, repo)
+    check_writer_exit(ctx, repo)
+
+
+def check_derived_names(ctx, repo):
+    """Tasks that derive output names from the input name (split) do not
+    pass through setup_task_paths' alias guard: every such name must differ
+    from the input's (something between the stem and the suffix)."""
+    n_checked = 0
+    for key, (ins, outs) in TASKS.items():
+        rel, q = key.split("::")
+        func = repo.func(rel, q)
+        uses_setup = any(call_name(c) in TUPLE_CALLS for c in walk(func)
+                         if isinstance(c, ast.Call))
+        for js in [n for n in walk(func) if isinstance(n, ast.JoinedStr)]:
+            vals = js.values
+            for i, v in enumerate(vals):
+                if isinstance(v, ast.FormattedValue) and isinstance(
+                        v.value, ast.Attribute) and v.value.attr in (
+                        "stem", "name") and isinstance(
+                        v.value.value, ast.Name) \
+                        and v.value.value.id in ins:
+                    # is this string used to build a path (left operand `/`)?
+                    par = getattr(js, "parent", None)
+                    if not (isinstance(par, ast.BinOp)
+                            and isinstance(par.op, ast.Div)):
+                        continue
+                    rest = vals[i + 1:]
+                    distinct = any(isinstance(x, ast.FormattedValue)
+                                   for x in rest) or (
+                        rest and isinstance(rest[0], ast.Constant)
+                        and not str(rest[0].value).startswith(".rtdc")
+                        and str(rest[0].value) not in ("",))
+                    n_checked += 1
+                    ctx.ob("R10.5", bool(distinct) or uses_setup,
+                           "output name derived from the input name carries "
+                           "an extra part (cannot be the input itself)"
+                           if distinct or uses_setup else
+                           f"output name `{short(js, 40)}` can equal the "
+                           f"input's name: with the default output directory "
+                           f"the final rename replaces the input file",
+                           node=js, label=f"derived name {short(js, 40)}")
+    ctx.stat("R10.5 derived output names checked", n_checked)
+
+
+def check_writer_exit(ctx, repo):
+    """The writer's context exit must let exceptions of its close-time
+    writes propagate: no `return` inside `finally`, no truthy return."""
+    rel = "dclab/rtdc_dataset/writer.py"
+    ex = repo.func(rel, "RTDCWriter.__exit__")
+    bad = None
+    for n in walk(ex):
+        if isinstance(n, ast.Return):
+            for a in ancestors(n):
+                if isinstance(a, ast.Try) and any(
+                        _contains(s_, n) for s_ in a.finalbody):
+                    bad = (n, "a `return` inside `finally` discards the "
+                              "in-flight exception of the close-time writes "
+                              "(rectify_metadata / version_brand)")
+                if isinstance(a, ast.FunctionDef):
+                    break
+            if bad is None and n.value is not None and txt(n.value) in (
+                    "True", "1"):
+                bad = (n, "__exit__ returns a true value: exceptions raised "
+                          "inside the with-block are suppressed")
+    ctx.ob("R10.6", bad is None,
+           "RTDCWriter.__exit__ lets exceptions propagate" if bad is None
+           else bad[1] + ": the task renames an unfinished temp file",
+           node=bad[0] if bad else ex, label="writer exit propagates errors")
+    # handlers inside __exit__ re-raise
+    for tr in [n for n in walk(ex) if isinstance(n, ast.Try)]:
+        for h in tr.handlers:
+            rer = any(isinstance(x, ast.Raise) for x in walk(
+                ast.Module(body=h.body, type_ignores=[])))
+            ctx.ob("R10.6", rer, "handler in __exit__ re-raises" if rer else
+                   "handler in RTDCWriter.__exit__ swallows the error",
+                   node=h, label="writer exit handler re-raises")
 
 
 def check_setup(ctx, repo):
@@ -632,6 +754,31 @@ MUTANTS = [
      "dclab/cli/common.py",
      ("if pp.resolve() == pi.resolve():",
       "if pp.absolute() == pi.absolute():"), "R10.5"),
+    ("condense swallows write errors (seeded C10_4)",
+     "dclab/cli/task_condense.py",
+     ("                hw.store_feature(feat=feat, data=ds[feat])\n",
+      "                try:\n"
+      "                    hw.store_feature(feat=feat, data=ds[feat])\n"
+      "                except Exception as exc:\n"
+      "                    warnings.warn(f\"skipped {feat}: {exc}\")\n"),
+     "R10.6"),
+    ("split names a single part like the input (seeded C10_5)",
+     "dclab/cli/task_split.py",
+     ('                pp = path_out / f"{path_in.stem}_{ii+1:04d}.rtdc"\n',
+      '                if num_files > 1:\n'
+      '                    pp = path_out / f"{path_in.stem}_{ii+1:04d}.rtdc"\n'
+      '                else:\n'
+      '                    pp = path_out / f"{path_in.stem}.rtdc"\n'),
+     "R10.5"),
+    ("writer exit returns inside finally (seeded C10_6)",
+     "dclab/rtdc_dataset/writer.py",
+     ("            # This is guaranteed to run if any exception is raised.\n"
+      "            self.close()\n",
+      "            # This is guaranteed to run if any exception is raised.\n"
+      "            self.close()\n            return False\n"), "R10.6"),
+    ("writer exit swallows errors", "dclab/rtdc_dataset/writer.py",
+     ("        except BaseException:\n            raise\n",
+      "        except BaseException:\n            pass\n"), "R10.6"),
     ("alias guard covers outputs only (seeded C08_2)",
      "dclab/cli/common.py",
      ("        for pp in paths_out + paths_temp:\n",
@@ -646,6 +793,16 @@ MUTANTS = [
 ]
 
 TWINS = [
+    ("condense: handler that logs and re-raises",
+     "dclab/cli/task_condense.py",
+     ("                hw.store_feature(feat=feat, data=ds[feat])\n",
+      "                try:\n"
+      "                    hw.store_feature(feat=feat, data=ds[feat])\n"
+      "                except Exception:\n"
+      "                    print(f\"failed at {feat}\")\n"
+      "                    raise\n")),
+    ("split: other separator in the part name", "dclab/cli/task_split.py",
+     ('f"{path_in.stem}_{ii+1:04d}.rtdc"', 'f"{path_in.stem}-part{ii+1:04d}.rtdc"')),
     ("setup: alias guard via samefile", "dclab/cli/common.py",
      ("if pp.resolve() == pi.resolve():",
       "if pp.exists() and pi.exists() and pp.samefile(pi):")),
